@@ -1,6 +1,7 @@
 package verifsim
 
 import (
+	"crypto/sha256"
 	"errors"
 
 	"github.com/dgraph-io/badger/v4"
@@ -39,6 +40,9 @@ type CrashRun struct {
 	memAfter      []*NSMem // memAfter[i] = mem after i ops
 	written       map[string]bool // identifiers (as in the scenario) written so far
 	settings      map[string]dsSettings
+	backupDir     string
+	backupMgr     *server.BackupManager
+	atBackup      *Model // model when the last completed backup run started
 	walEpochStart int // WAL offsets are only comparable for ops after the last clean restart
 	deletedIDs  map[uint32]bool
 	seenDsIDs   map[uint32]string // internal dataset id -> "name#incarnation"
@@ -323,6 +327,9 @@ func RunCrashScenario(sc *Scenario) (vd *Verdict) {
 		}
 		// a crashed hub is never closed cleanly; close it here only to release memory
 		r.Cleanup()
+		if r.backupDir != "" {
+			os.RemoveAll(r.backupDir)
+		}
 	}()
 	fail := func(v *Violation, step int) {
 		vd.Verdict = "violation"
@@ -352,6 +359,9 @@ func RunCrashScenario(sc *Scenario) (vd *Verdict) {
 		}
 		if sc.Property == "C19" {
 			vd.Nontrivial = r.Stats["mgmt_ops"] >= 1 && r.Stats["commits"] >= 1
+		}
+		if sc.Property == "C20" {
+			vd.Nontrivial = r.Stats["backup_runs"] >= 1 && r.Stats["restores_checked"] >= 1 && r.Stats["commits"] >= 1
 		}
 	}()
 	armed := map[string]string{} // "point#hit" -> kind
@@ -413,6 +423,24 @@ func RunCrashScenario(sc *Scenario) (vd *Verdict) {
 				r.Stats["ctx_txns"]++
 			}
 			werr = st.ExecuteTransaction(t)
+		case "backup":
+			mgmt = true
+			if v := r.runBackup(); v != nil {
+				fail(v, i)
+				return
+			}
+		case "restoreCheck":
+			mgmt = true
+			if v := r.restoreCheck(); v != nil {
+				fail(v, i)
+				return
+			}
+		case "foreignBackup":
+			mgmt = true
+			if v := r.foreignBackup(); v != nil {
+				fail(v, i)
+				return
+			}
 		case "nsid":
 			mgmt = true
 			r.Stats["roundtrips"]++
@@ -511,6 +539,7 @@ func RunCrashScenario(sc *Scenario) (vd *Verdict) {
 			r.fp = FilesFingerprint(r.H.Dir)
 			r.walEpochStart = i + 1
 			r.grabbed = map[string]*grabbedDS{}
+			r.backupMgr = nil // a restarted hub builds a new BackupManager, which reloads its cursor
 			if sc.Property == "C13" {
 				if v := ObserveNS(r.H, r.mem, r.writtenCuries(r.H), ":after-restart"); v != nil {
 					fail(v, i)
@@ -770,4 +799,126 @@ func (r *CrashRun) writtenCuries(h *Hub) []string {
 		}
 	}
 	return out
+}
+
+// --- C20: backups ---------------------------------------------------------------------------
+
+func (r *CrashRun) backupEnv() {
+	if r.backupDir == "" {
+		r.backupDir = NewDir("backup")
+		os.RemoveAll(r.backupDir) // the manager creates it
+	}
+	r.H.Env.BackupLocation = r.backupDir
+	r.H.Env.BackupSchedule = "*/5 * * * *"
+}
+
+func (r *CrashRun) runBackup() (v *Violation) {
+	r.backupEnv()
+	if r.backupMgr == nil {
+		bm, err := server.VerifNewBackupManager(r.H.Store, r.H.Env)
+		if err != nil {
+			return viol("C20", "backup", "manager-init", "NewBackupManager: %v", err)
+		}
+		r.backupMgr = bm
+		r.Stats["backup_managers"]++
+	}
+	start := r.M.Clone()
+	defer func() {
+		if rec := recover(); rec != nil {
+			v = viol("C20", "backup", "backup-run-panicked", "BackupManager.Run panicked: %v", rec)
+		}
+	}()
+	r.backupMgr.Run()
+	r.atBackup = start
+	r.Stats["backup_runs"]++
+	r.ev("backup")
+	return nil
+}
+
+// restoreCheck loads the backup location into an empty store and compares it with the source
+// hub as it was when the last completed backup run started.
+func (r *CrashRun) restoreCheck() *Violation {
+	if r.atBackup == nil {
+		return nil
+	}
+	dir := NewDir("restore")
+	defer os.RemoveAll(dir)
+	f, err := os.Open(r.backupDir + "/datahub-backup.kv")
+	if err != nil {
+		return viol("C20", "restore", "no-backup-file", "backup file missing: %v", err)
+	}
+	opts := badger.DefaultOptions(dir)
+	opts.Logger = nil
+	opts.MemTableSize = 8 << 20
+	opts.ValueLogFileSize = 1 << 20
+	opts.BlockCacheSize = 1 << 20
+	db, err := badger.Open(opts)
+	if err != nil {
+		f.Close()
+		return viol("C20", "harness", "invalid", "open restore target: %v", err)
+	}
+	err = db.Load(f, 16)
+	f.Close()
+	cerr := db.Close()
+	if err != nil || cerr != nil {
+		return viol("C20", "restore", "load-failed", "loading the backup failed: %v %v", err, cerr)
+	}
+	h, err := OpenHub(dir, r.Sc.Knobs)
+	if err != nil {
+		return viol("C20", "restore", "restored-store-does-not-open", "%v", err)
+	}
+	defer h.Close()
+	r.Stats["restores_checked"]++
+	if v := r.checkAgainst(h, r.atBackup); v != nil {
+		v.Property = "C20"
+		v.Signature = "restored:" + v.Signature
+		v.Message = "the restored backup differs from the source hub at the start of the last completed backup run: " + v.Message
+		return v
+	}
+	return nil
+}
+
+func dirFingerprint(dir string) string {
+	ents, _ := os.ReadDir(dir)
+	var parts []string
+	for _, e := range ents {
+		b, _ := os.ReadFile(dir + "/" + e.Name())
+		parts = append(parts, fmt.Sprintf("%s:%d:%x", e.Name(), len(b), sha256.Sum256(b)))
+	}
+	sort.Strings(parts)
+	return strings.Join(parts, "|")
+}
+
+// foreignBackup points a second, different store at the backup location: it must not be written.
+func (r *CrashRun) foreignBackup() (v *Violation) {
+	if r.backupDir == "" || r.atBackup == nil {
+		return nil
+	}
+	time.Sleep(time.Nanosecond)
+	other, err := OpenHub(NewDir("otherhub"), r.Sc.Knobs)
+	if err != nil {
+		return viol("C20", "harness", "invalid", "%v", err)
+	}
+	defer func() {
+		other.Close()
+		os.RemoveAll(other.Dir)
+	}()
+	if ds, err := other.Dsm.CreateDataset("foreign", nil); err == nil && ds != nil {
+		_ = ds.StoreEntities(other.Entities([]Ent{{"id": MkE + "foreign", "props": map[string]any{}, "refs": map[string]any{}}}))
+	}
+	other.Env.BackupLocation = r.backupDir
+	other.Env.BackupSchedule = "*/5 * * * *"
+	before := dirFingerprint(r.backupDir)
+	bm, err := server.VerifNewBackupManager(other.Store, other.Env)
+	if err == nil && bm != nil {
+		func() {
+			defer func() { _ = recover() }() // refusing by panic is the documented behaviour
+			bm.Run()
+		}()
+	}
+	r.Stats["foreign_backup_attempts"]++
+	if after := dirFingerprint(r.backupDir); after != before {
+		return viol("C20", "backup", "foreign-store-overwrote-backup", "a store with a different storage id ran its backup against this location and changed it:\nbefore %s\nafter  %s", before, after)
+	}
+	return nil
 }
